@@ -667,7 +667,7 @@ func writeEvidence(prop, tier string, seed uint64, b *build, bt *batch, tc tierC
 		"run_status":              status,
 		"run_configs":             configs,
 		"fault_counts":            faults,
-		"faults_without_target":   []string{"process crash/restart (no durable state; its library-level counterpart, an operation aborted midway, is injected for C05 and C18)", "disk errors / torn or lost writes", "message loss", "message duplication", "partition", "clock skew / jumps", "allocation failure"},
+		"faults_without_target":   faultsWithoutTarget(prop),
 		"probes":                  probes,
 		"race_build":              true,
 		"workers":                 tc.workers,
@@ -679,6 +679,7 @@ func writeEvidence(prop, tier string, seed uint64, b *build, bt *batch, tc tierC
 			"lru_size_sites":     b.overlay.SizeSites,
 			"go_statement_sites": b.overlay.GoSites,
 			"select_sites":       b.overlay.SelectSites,
+			"virtual_time_sites": b.overlay.TimeSites,
 			"once_do_sites":      b.overlay.OnceSites,
 			"files_rewritten":    b.overlay.Files,
 		},
@@ -1217,4 +1218,16 @@ func main() {
 		os.Exit(0)
 	}
 	fatal2("unknown subcommand %q", sub)
+}
+
+// faultsWithoutTarget lists the fault kinds of the technique that have nothing
+// to act on for the property (reported as such instead of as zero counts).
+func faultsWithoutTarget(prop string) []string {
+	out := []string{"process crash/restart (no durable state; its library-level counterpart, an operation aborted midway, is injected for C05 and C18)", "disk errors / torn or lost writes", "message loss", "message duplication", "partition", "allocation failure"}
+	if prop == "C05" || prop == "C18" {
+		out = append(out, "clock skew between nodes (one process, one clock; clock JUMPS between operations and slow calls on the virtual clock are injected, see fault_counts.clock_jumps_between_operations)")
+	} else {
+		out = append(out, "clock skew / jumps (nothing in this property's code reads a clock)")
+	}
+	return out
 }
